@@ -164,7 +164,7 @@ def run(ctx):
         finally:
             keys[:] = saved
     ctx.selftest_internal(leaked, 'removing a key from strutils._SANITIZE_KEYS does not change mask_password')
-    ctx.cov['rule'] = ('35 keys x 4 spellings x 16 renderings; per rendering every secret shape over the character classes the '
+    ctx.cov['rule'] = ('35 keys x 4 spellings x 18 renderings; per rendering every secret shape over the character classes the '
                        'rendering can carry (each regex metacharacter its own class, every member of a single-class secret); '
-                       'fields between neutral text and pairs of fields; 6 masks incl. backslashes; distinct_nontrivial = messages')
+                       'fields between neutral text and pairs of fields; 6 masks incl. backslashes; every 23rd message inside a 9 kB log; falsy and non-str messages; distinct_nontrivial = messages')
     ctx.cov['exhaustive'] = True
